@@ -802,14 +802,17 @@ func runWal(w []string, withOracle bool) (string, string) {
 	for _, s := range w[7:] {
 		recs = append(recs, parseRec(s))
 	}
-	content, _ := encodeRecs(c, recs)
-	total := len(content)
-	if cut < len(content) {
-		content = content[:cut]
-	} else {
-		cut = len(content)
+	full, _ := encodeRecs(c, recs)
+	total := len(full)
+	if cut > total {
+		cut = total
 	}
-	content = append(content, make([]byte, fill)...)
+	content := append(append([]byte{}, full[:cut]...), make([]byte, fill)...)
+	// Zero-filling bytes that were zero anyway damages nothing: the file equals the written log up
+	// to the first lost non-zero byte, and that is the cut the property speaks about.
+	for cut < total && cut < len(content) && full[cut] == 0 {
+		cut++
+	}
 	items, end, err := badger.VerifIterate(fid, fileImage(content), c.key, c.iv)
 	out := fmt.Sprintf("%s len=%d crc=%d", iterOut(items, end, err), total, crc32.Checksum(content, y.CastagnoliCrcTable))
 	orc := ""
